@@ -109,8 +109,9 @@ def gen_prog(rng, nsub, tau, waits=0, shutdown=False, imm_only=False):
 
 def gen_func(rng, tau):
     nf = rng.choice([0, 0, 1, 1, 2, 3])
-    return {'dur': rng.choice([0.0, 0.0, 1.0, tau - 1.0, tau + 2.0]),
-            'fail': sorted(rng.sample([1, 2, 3, 4, 5, 6], nf))}
+    fl = sorted(rng.sample([1, 2, 3, 4, 5, 6], nf))
+    return {'dur': rng.choice([0.0, 0.0, 1.0, tau - 1.0, tau + 2.0]), 'fail': fl,
+            'fail_cancel': [x for x in fl if rng.random() < 0.3]}
 
 
 def fam_programs(rng, n, nsub_max, waits, shutdown=False, imm_only=False):
@@ -148,8 +149,11 @@ def fam_foreign(rng, n):
         st = rng.random()
         strat = ({'kind': 'random', 'seed': rng.randrange(1 << 30), 'stick': rng.choice([0.0, 0.5, 0.9])} if st < 0.4
                  else {'kind': 'pct', 'seed': rng.randrange(1 << 30), 'depth': rng.choice([1, 2, 3]), 'est_len': 200})
-        out.append({'timeout': tau, 'func': func, 'prog': prog, 'foreign': foreign, 'strategy': strat,
-                    'trace': True, 'end': end_time(prog, tau, func, extra=4 * tau + 10)})
+        sc = {'timeout': tau, 'func': func, 'prog': prog, 'foreign': foreign, 'strategy': strat,
+              'trace': True, 'end': end_time(prog, tau, func, extra=8 * tau + 10)}
+        if rng.random() < 0.3:      # a foreign thread descheduled for a long time in the middle of a call
+            sc['stalls'] = {rng.choice(foreign)['name']: [rng.randint(1, 25), rng.choice([1.0, tau + 1.0, 2 * tau + 1.0])]}
+        out.append(sc)
     return out
 
 
